@@ -344,3 +344,23 @@ func init() {
 }
 
 var intRe = regexp.MustCompile(`\(?-?[0-9]+\)?`)
+
+func init() {
+	replayDrivers = append(replayDrivers, replayDriver{
+		match: func(n string) bool { return strings.Contains(n, "readyzHandler#WriteHeader.C09.readyz") },
+		run: func(r *Report, o *Obligation, sr *SolveResult) ReplayResult {
+			out, conf := goReplay(r, "cmd/keymasterd", "keymasterd_replay_test.go", "TestVerifReplayReadyz", map[string]string{})
+			return ReplayResult{Confirmed: conf, Summary: replaySummary(out), Output: truncate(out, 4000), Driver: "TestVerifReplayReadyz (the model fixes which signer fields are nil; all four combinations are replayed)"}
+		},
+	})
+}
+
+func init() {
+	replayDrivers = append(replayDrivers, replayDriver{
+		match: func(n string) bool { return strings.Contains(n, "signerPublicKeyToKeymasterKeys#") },
+		run: func(r *Report, o *Obligation, sr *SolveResult) ReplayResult {
+			out, conf := goReplay(r, "cmd/keymasterd", "keymasterd_replay_test.go", "TestVerifReplayPublishedKeys", map[string]string{})
+			return ReplayResult{Confirmed: conf, Summary: replaySummary(out), Output: truncate(out, 4000), Driver: "TestVerifReplayPublishedKeys (scenarios of the model: which signing keys are already in the published list)"}
+		},
+	})
+}
